@@ -2,8 +2,8 @@ import PcbV.Lemmas.Cassette
 /-
   C29 — Files written to a cassette image read back intact.
 
-  Property theorems about `PcbV.Cassette`, the record-level model of devices/cassette.py with BOTH
-  pending repairs applied (`fixed = true`: `_flush_record_buffer` keeps a full last chunk for the
+  Property theorems about `PcbV.Cassette`, the record-level model of devices/cassette.py with ALL
+  repairs applied (`rel = true`: `_search` closes the stream when it runs off the tape end; `fixed = true`: `_flush_record_buffer` keeps a full last chunk for the
   closing record; `skipBody = true`: `_search` plays past the records of a skipped file).  The bit
   level (leader, sync, trailer, CAS bit packing, WAV pulses) is abstracted to "a tape is a list of
   records, a record a list of 256-byte blocks"; the CRC is a parameter (a block written verifies).
@@ -51,7 +51,7 @@ theorem data_roundtrip (req types : Bytes) (pre : List TFile) (f : TFile) (post 
     (hpre : ∀ g ∈ pre, g.wf ∧ nameMatches req types (padName g.name) g.ftype = false)
     (hf : f.wf) (hm : nameMatches req types (padName f.name) f.ftype = true)
     (ha : s.ahead = encode pre ++ (fileRecs f ++ post)) :
-    ∃ s1 s2, openInput true s req types = (pre.map skippedMsg ++ [foundMsg f], s1, .ok (hdrOf f)) ∧
+    ∃ s1 s2, openInput true true s req types = (pre.map skippedMsg ++ [foundMsg f], s1, .ok (hdrOf f)) ∧
       s1.ftype = f.ftype ∧
       Cassette.read s1 none = .ok (f.content, s2) ∧
       s2.ahead = post ∧ s2.done = s.done ++ encode pre ++ fileRecs f ∧
@@ -68,6 +68,23 @@ theorem data_roundtrip (req types : Bytes) (pre : List TFile) (f : TFile) (post 
   · simp [closeFile, closeStream, afterOpen]
   · simp [closeFile, closeStream, afterOpen]
 
+/-- A request that no file between the head and the end of the tape answers (a name that is not there,
+    or a file that lies behind the head): Skipped for each file passed, Device Timeout — and afterwards
+    the tape is rewound to its beginning and the stream is CLOSED, so the hypotheses of `data_roundtrip`
+    hold again with the whole tape ahead: every file can still be found by name after a failed search. -/
+theorem failed_search_rewinds (req types : Bytes) (pre : List TFile) (s : St)
+    (hreq : req.any (· < 32) = false) (hs : s.isOpen = false)
+    (hpre : ∀ g ∈ pre, g.wf ∧ nameMatches req types (padName g.name) g.ftype = false)
+    (ha : s.ahead = encode pre) :
+    ∃ s', openInput true true s req types = (pre.map skippedMsg, s', .error Gen.E.device_timeout) ∧
+      s'.isOpen = false ∧ s'.done = [] ∧ s'.ahead = s.done ++ s.ahead ∧ s'.last = s.last := by
+  have hreq' : (req.any fun x => decide (x < 32)) = false := hreq
+  have hfuel : pre.length < s.ahead.length + 1 := by
+    have := encode_length pre
+    rw [ha]; omega
+  obtain ⟨s', h1, h2⟩ := search_fails req types pre hpre s _ hfuel ha
+  exact ⟨s', by simp [openInput, hs, hreq', h1], h2⟩
+
 /-- no_mixing, stated as independence: the bytes delivered for `f` are the same whatever other files
     precede it (and are skipped) and whatever follows it. -/
 theorem no_mixing (req types : Bytes) (pre pre' : List TFile) (f : TFile) (post post' : Tape) (s s' : St)
@@ -77,8 +94,8 @@ theorem no_mixing (req types : Bytes) (pre pre' : List TFile) (f : TFile) (post 
     (hf : f.wf) (hm : nameMatches req types (padName f.name) f.ftype = true)
     (ha : s.ahead = encode pre ++ (fileRecs f ++ post))
     (ha' : s'.ahead = encode pre' ++ (fileRecs f ++ post')) :
-    (Cassette.read (openInput true s req types).2.1 none).map (·.1) = .ok f.content ∧
-    (Cassette.read (openInput true s' req types).2.1 none).map (·.1) = .ok f.content := by
+    (Cassette.read (openInput true true s req types).2.1 none).map (·.1) = .ok f.content ∧
+    (Cassette.read (openInput true true s' req types).2.1 none).map (·.1) = .ok f.content := by
   obtain ⟨s1, s2, h1, _, h2, _⟩ := data_roundtrip req types pre f post s hreq hs hpre hf hm ha
   obtain ⟨s1', s2', h1', _, h2', _⟩ := data_roundtrip req types pre' f post' s' hreq hs' hpre' hf hm ha'
   rw [h1, h1']; simp only []
@@ -101,7 +118,7 @@ theorem tape_roundtrip (pre : List File) (f : File) (rest : List File) (req type
     (hpre : ∀ g ∈ pre, nameMatches req types (padName g.name) g.ftype = false)
     (hm : nameMatches req types (padName f.name) f.ftype = true) :
     ∃ s' s1 s2 h, writeFiles true (attach []) (pre ++ f :: rest) = .ok s' ∧
-      openInput true (attach (closeStream true s').tape) req types =
+      openInput true true (attach (closeStream true s').tape) req types =
         (pre.map (fun g => (⟨false, padName g.name, g.ftype⟩ : Msg)) ++ [⟨true, padName f.name, f.ftype⟩], s1, .ok h) ∧
       s1.ftype = f.ftype ∧
       Cassette.read s1 none = .ok (f.content, s2) ∧
@@ -134,7 +151,7 @@ def roundTrip (fixed skip : Bool) (fs : List File) (req types : Bytes) : Option 
   match writeFiles fixed (attach []) fs with
   | .error _ => none
   | .ok s =>
-    let r := openInput skip (attach (closeStream fixed s).tape) req types
+    let r := openInput skip true (attach (closeStream fixed s).tape) req types
     match r.2.2, Cassette.read r.2.1 none with
     | .ok _, .ok (d, _) => some (r.1, d)
     | _, _ => none
@@ -174,6 +191,28 @@ theorem skip_counterexample :
     roundTrip true false [fileTrap, fileTwo] [84, 87, 79] [tD]
       ≠ some ([⟨false, [79, 78, 69, 32, 32, 32, 32, 32], tD⟩, ⟨true, [84, 87, 79, 32, 32, 32, 32, 32], tD⟩], [88, 89]) ∧
     (roundTrip true false [fileTrap, fileTwo] [84, 87, 79] [tD]).map (fun r => r.2.length) = some 164 := by
+  decide +kernel
+
+/-- write the files, attach again, search a name that is not on the tape, then open `req` -/
+def afterMiss (rel : Bool) (fs : List File) (req types : Bytes) : Option (List Msg × R Unit) :=
+  match writeFiles true (attach []) fs with
+  | .error _ => none
+  | .ok s =>
+    let r0 := openInput true rel (attach (closeStream true s).tape) [78, 79, 80, 69] types
+    let r := openInput true rel r0.2.1 req types
+    some (r0.1 ++ r.1, r.2.2.map fun _ => ())
+
+/-- the repaired code finds ONE after the failed search for NOPE -/
+example : afterMiss true [fileOne 3, fileTwo] [79, 78, 69] [tD]
+    = some ([⟨false, [79, 78, 69, 32, 32, 32, 32, 32], tD⟩, ⟨false, [84, 87, 79, 32, 32, 32, 32, 32], tD⟩,
+             ⟨true, [79, 78, 69, 32, 32, 32, 32, 32], tD⟩], .ok ()) := by decide +kernel
+
+/-- original `_search` (stream left open when the search runs off the end of the tape after passing a
+    header): the next OPEN of a file that IS on the tape fails with File already open (55). -/
+theorem timeout_counterexample :
+    afterMiss false [fileOne 3, fileTwo] [79, 78, 69] [tD]
+      = some ([⟨false, [79, 78, 69, 32, 32, 32, 32, 32], tD⟩, ⟨false, [84, 87, 79, 32, 32, 32, 32, 32], tD⟩],
+              .error Gen.E.file_already_open) := by
   decide +kernel
 
 end PcbV.C29
